@@ -73,14 +73,14 @@ func (p DictPattern) Bind(ctx context.Context, local Scope, value Value) (contex
 
 	result := EmptyScope
 	m := dict.m
-	for _, entry := range p.entries {
+	// The ...rest entry captures what is left once every explicit entry, also those written after it, has been
+	// taken out, so it is bound after the walk.
+	var rest *DictPatternEntry
+	for i, entry := range p.entries {
 		var dictValue Value
 		if _, is := entry.pattern.pattern.(ExtraElementPattern); is {
-			if m.IsEmpty() {
-				dictValue = None
-			} else {
-				dictValue = Dict{m: m}
-			}
+			rest = &p.entries[i]
+			continue
 		} else {
 			key := entry.at
 			if lit, is := key.(LiteralExpr); is {
@@ -106,6 +106,23 @@ func (p DictPattern) Bind(ctx context.Context, local Scope, value Value) (contex
 		var scope Scope
 		var err error
 		ctx, scope, err = entry.pattern.pattern.Bind(ctx, local, dictValue)
+		if err != nil {
+			return ctx, EmptyScope, err
+		}
+		result, err = result.MatchedUpdate(scope)
+		if err != nil {
+			return ctx, EmptyScope, err
+		}
+	}
+
+	if rest != nil {
+		var remainder Value = None
+		if !m.IsEmpty() {
+			remainder = Dict{m: m}
+		}
+		var scope Scope
+		var err error
+		ctx, scope, err = rest.pattern.pattern.Bind(ctx, local, remainder)
 		if err != nil {
 			return ctx, EmptyScope, err
 		}
